@@ -74,7 +74,7 @@ func scopeFuncs(c *Ctx, roots []*ssa.Function) []*ssa.Function {
 }
 
 func runC12(c *Ctx) {
-	c.Rule("C12.R1", "PANIC/LIN", "every potential panic site in scope is discharged (bounds, explicit panic, Must*, unchecked assertion, division)", 60)
+	c.Rule("C12.R1", "PANIC/LIN", "every potential panic site in scope is discharged (bounds, explicit panic, Must*, unchecked assertion, division)", 40)
 	c.Rule("C12.R2", "NIL", "nil-able pointers dereferenced only under a guard, a nil-safe method or an establishing contract", 8)
 	c.Rule("C12.R3", "TERM", "every loop has a variant; no recursion", 30)
 	c.Rule("C12.R4", "WIRE/PDT", "blank/comment lines are inert; scanner accepts only good rules", 2)
@@ -951,12 +951,26 @@ func cutLoop(u *U, s *Summary, l *Loop) bool {
 			}
 			n++
 			v := s.Env[ph.Edges[i]]
-			if v == nil || v.Op != "extract" || v.Aux != "1" || v.Args[0].Op != "call" || v.Args[0].Aux != "strings.Cut" || v.Args[0].Args[0] != p {
+			if v == nil {
 				okAll = false
 				continue
 			}
-			if sep, ok := v.Args[0].Args[1].StrVal(); !ok || sep == "" {
-				okAll = false
+			// every alternative of the next value is "" or a suffix p[lo:] with lo >= 1
+			for leaf, cond := range u.Leaves(v) {
+				if sv, isS := leaf.StrVal(); isS && sv == "" {
+					continue
+				}
+				if leaf.Op != "slice" || leaf.Args[0] != p || leaf.Args[2] != nil || leaf.Args[1] == nil {
+					okAll = false
+					continue
+				}
+				L := NewLin(u)
+				L.assumeCond(u.bdd.And(s.RC[pr], cond))
+				L.registerTerms(leaf.Args[1])
+				L.resolveNeqs()
+				if !L.entails(L.linearize(u.Int(1)), L.linearize(leaf.Args[1]), 0) {
+					okAll = false
+				}
 			}
 		}
 		cont := contCond(u, s, l)
